@@ -32,6 +32,12 @@ theorem gen_consts_agree :
     Gen.Router.ddwrtSaveNames = Hand.ddwrtSaveNames ∧ Gen.Router.ddwrtSetVars = Hand.ddwrtSetVars ∧
     Gen.Router.detectOrder = Hand.detectOrder := by decide +kernel
 
+/-- **C20 (regenerated)**: no firmware package assigns `Router.ListenPort` outside `New()`: the port
+the templates name (several spell `5342` out instead of using `{{.ListenPort}}`) and the port put
+into `c.Listens` are the same constant, which is what the rows of `forwards_to_listen` are computed
+from. A Configure that picks another port at run time breaks this obligation. -/
+theorem gen_listen_port_constant : Gen.Router.portReassigned = [] := by decide
+
 /-- every firmware the property lists is reachable from detectRouter, under its own name, and
 `generic` is the last resort -/
 theorem detect_covers_all_firmwares :
